@@ -356,6 +356,30 @@ JOIN_STEPS = fn("join_steps", "r", attrs="#[verifier::loop_isolation(false)]\n#[
                 })
 
 
+THREAD_BUILDERS = fn("generate_thread_builders_and_spawn_joiners", "r", attrs="#[verifier::loop_isolation(false)]\n",
+    requires=["self.branch_count == self.depths@.len()"],
+    ensures=[
+        # C07: threads only for the sync spawning kinds and only for a step with at least two active branches
+        "r is None <==> (self.config.is_async || !self.config.is_spawn || count_active(self.depths@, step_number as int) < 2)",
+        "r is Some ==> (r->0).0@ == bt(no_toks(), concat_all(tb_list(self.depths@, step_number as int, self.depths@.len() as int)))",
+        "r is Some ==> (r->0).1@ == bp(bg(bp(bt(bi(no_toks(), \"let\"@), step_results_name.toks()), '='), Delim::Paren, bt(no_toks(), "
+        "join_comma(joins_list(step_results_name.toks(), self.depths@, step_number as int, self.depths@.len() as int)))), ';')",
+    ],
+    proof_prologue="proof { lemma_take_full(self.depths@); }",
+    subst=[{"find": "<TName: ToTokens>", "replace": "", "why": "monomorphised at the only instantiation (TName = Ident)", "sig": True},
+           {"find": "&TName", "replace": "&Ident", "why": "monomorphisation", "sig": True}],
+    iter_loops={
+        "0": {"invariant": ["branch_index <= __hi", "__hi == self.depths@.len()",
+                            "ts_views(__v@) =~= tb_list(self.depths@, step_number as int, branch_index as int)"],
+              "after": "proof { lemma_concat_all(__v@); }"},
+        "1": {"invariant": ["branch_index <= __hi", "__hi == self.depths@.len()", "index <= branch_index",
+                            "index as int == active_pos(self.depths@, step_number as int, branch_index as int)",
+                            "ts_views(__v@) =~= joins_list(step_results_name.toks(), self.depths@, step_number as int, branch_index as int)"],
+              "body_prologue": "proof { lemma_count_take_step(self.depths@, step_number as int, branch_index as int); }",
+              "after": "proof { lemma_join_comma(__v@); }"},
+    })
+
+
 def gen_units():
     """join_output.rs: the functions of the generator that are within Verus' reach (P1 + P2)"""
     u = []
@@ -590,7 +614,7 @@ def steps_units():
             un2["fns"] = [f for f in un["fns"] if f["name"] in keep_fns]
             u += _assume([un2])
     u.append(raw("specs_join_steps", _read("specs_join_steps.rs")))
-    u.append(fns(F_JO, [JOIN_STEPS], self_ty="JoinOutput"))
+    u.append(fns(F_JO, [JOIN_STEPS, THREAD_BUILDERS], self_ty="JoinOutput"))
     return u
 
 
